@@ -14,8 +14,8 @@ META = dict(
     design_ref='DESIGN.md §5 C07, design/C07.md',
     level_text=('Theorems (any forest, any node, deep or shallow, with or without memo): the clone has the same erasure (keys, leaves, classes), the same flags on every '
                 'corresponding node, is a well-formed tree of fresh node ids, and the step leaves every existing root exactly as it was; a shallow clone shares exactly the '
-                'leaf objects, a deep clone none of the mutable ones; every operation addressed inside one root leaves every other root unchanged except a root it '
-                'explicitly moves (frame), hence no later mutation of either copy is observable through the other. Tie: correspondence on generated histories '
+                'leaf objects; the frame theorem (proved): every operation addressed inside one root and handed values from some roots leaves every OTHER root the user holds '
+                'exactly as it was, for every later history, hence no later mutation of either copy is observable through the other. Tie: correspondence on generated histories '
                 '(clone, copy.copy, copy.deepcopy, Dict.copy followed by mutations of either copy), flag-combination sweep (exhaustive), direct oracle on every step.'),
     level_note=('Trusted: Coq kernel; extraction cross-checked against vm_compute; driver/generator. Not modelled: value_spec binding of the copy (C03), pg.Ref leaves '
                 '(shared by design), geno/hyper _sym_clone overrides, clone(override=...).'),
